@@ -25,7 +25,7 @@ META = dict(
     functions=["fdtd.initialization._init_arrays (use_complex)", "fdtd.forward.forward", "TFSFPlaneSource._tfsf_inject_E_face/_H_face (quadrature injection)",
                "PointDipoleSource.update_E/H", "core.physics.metrics.compute_energy/compute_poynting_flux", "Detector.update (all kinds)", "PML step_cpml"],
     assumptions=["reals for floats", "no Bloch phase (k = 0)", "materials concrete; quantified: real initial E, H (identical in both runs)"],
-    outside="T and shapes beyond the bound; mode sources/detectors",
+    outside="T and shapes beyond the bound; mode-overlap detectors; the mode solver itself (tidy3d/scipy, runs concretely at placement)",
     bounds=dict(quick=dict(T=3), thorough=dict(T=6)),
 )
 
@@ -34,13 +34,16 @@ _SC = {
     "pec-pmc-periodic": dict(shape=(3, 3, 4), bounds={"min_x": "pec", "max_x": "pec", "min_y": "pmc", "max_y": "pmc", "min_z": "periodic", "max_z": "periodic"}, src=("dipole", "mdipole")),
     "pml-all": dict(shape=(4, 4, 5), bounds="pml", src=("dipole",), thickness=1),
     "periodic-gauss": dict(shape=(3, 3, 4), bounds="periodic", src=("gauss", "mdipole")),
+    # a mode source over a lossy core: the solved mode profile is complex, the quadrature injection must stay real in
+    # real storage and must not leak into the imaginary part in complex storage
+    "pml-mode-lossy": dict(shape=(5, 5, 5), bounds={"min_z": "pml", "max_z": "pml"}, src=(), thickness=1, mode=True, T=2, det=("field",)),
 }
 
 
 def cases(tier, seed):
     T = 3 if tier == "quick" else 6
-    names = ["pml-z", "pec-pmc-periodic"] if tier == "quick" else list(_SC)
-    return [dict(name=n, T=T) for n in names]
+    names = ["pml-z", "pec-pmc-periodic", "pml-mode-lossy"] if tier == "quick" else list(_SC)
+    return [dict(name=n, T=_SC[n].get("T", T)) for n in names]
 
 
 def run_case(c, case):
@@ -49,6 +52,9 @@ def run_case(c, case):
     c.functions.update(META["functions"])
     c.bounds.update(T=T, shape=list(shape))
     kw = dict(bounds=spec["bounds"], src_kinds=spec["src"], thickness=spec.get("thickness", 2))
+    if spec.get("mode"):
+        kw["extra"] = [_run.lossy_core(shape), _run.mode_source(shape)]
+        kw["det_kinds"] = spec["det"]
     SR = _run.scene(shape, T, use_complex=False, **kw)
     SC = _run.scene(shape, T, use_complex=True, **kw)
     if not np.iscomplexobj(np.asarray(SC["arrays"].fields.E)) or np.iscomplexobj(np.asarray(SR["arrays"].fields.E)):
@@ -92,7 +98,8 @@ def run_case(c, case):
         return worst > 1e-7, dict(worst_rel_diff=worst)
 
     for nm, a, b in (("E", Er, Ec), ("H", Hr, Hc)):
-        c.prove_eq(f"Re({nm}_complex) == {nm}_real", jx.ew(sc.real, b), a, [], replay, key=f"complex:{nm}:re")
+        mg = float(np.max(np.abs(np.asarray(want[0 if nm == "E" else 1]))))
+        c.prove_eq(f"Re({nm}_complex) == {nm}_real", jx.ew(sc.real, b), a, [], replay, key=f"complex:{nm}:re", roundoff=1e-9, scale=max(mg, 1e-300))
         c.prove_eq(f"Im({nm}_complex) == 0", jx.ew(sc.imag, b), np.zeros(fsh), [], replay, key=f"complex:{nm}:im")
     for (n0, k0, a), (n1, k1, b) in zip(_run.flat_states(dr), _run.flat_states(dc)):
         assert (n0, k0) == (n1, k1)
